@@ -198,8 +198,9 @@ def cls_name(spec):
     return t
 
 
-def cfg(spec):
-    """Configuration class of a node: only the distinctions that select different code paths."""
+def cfg(spec, theta=False):
+    """Configuration class of a node: only the distinctions that select different code paths (which
+    hyper-parameters are fixed matters only where the hyper-parameter gradient is the subject: theta=True)."""
     tok = []
     b = base_type(spec)
     if b in ADDITIVE or b == "PartialARBF":
@@ -208,8 +209,8 @@ def cfg(spec):
             tok.append("o4+")
         elif o == 0:
             tok.append("o0")
-        if spec.get("lb") == "fixed" and spec.get("sb") != "fixed":
-            tok.append("lfix_sfree")
+        if theta and spec.get("lb") == "fixed" and spec.get("sb") != "fixed" and o > 0:
+            tok = ["lfix_sfree"]  # preempts the order classes: the gradient array cannot even be filled
     if b == "Poly" and spec["order"] == 1:
         tok.append("o1")
     return ",".join(tok) or "std"
@@ -365,7 +366,7 @@ def guard(ctx, sig, fn, expected=(), always=False):
         if fr is None and not always:
             raise
         sig = tuple(str(s) for s in sig)
-        raise Violation((ctx.sc.name, "exception:" + type(e).__name__) + sig,
+        raise Violation((ctx.sc.name,) + sig + ("exception:" + type(e).__name__,),
                         {"message": str(e)[:300], "where": fr, "traceback": traceback.format_exc()[-1200:]})
 
 
